@@ -42,11 +42,15 @@ def gen_allocs(rng):
         return ["1"] * rng.range(30, 80)
     if style == 1:
         k = rng.range(1, 4)
-        return [str(k)] * rng.range(10, 60)
+        out = [str(k)] * rng.range(10, 60)
+        # a refusal in the middle of a wakeup (after reads that filled their buffers), every refusal style
+        for _ in range(rng.below(3)):
+            out[rng.below(len(out))] = rng.choice(["0", "u", "u", "z", "b5"])
+        return out
     for _ in range(n):
         r = rng.below(24)
-        if r == 0: out.append("0")
-        elif r == 1: out.append("z")
+        if r == 0: out.append(rng.choice(["0", "u", "u"]))
+        elif r == 1: out.append(rng.choice(["z", "b7"]))
         elif r < 4: out.append("65536")
         elif r < 7: out.append(str(rng.range(9, 64)))
         else: out.append(str(rng.choice([1, 1, 2, 2, 3, 4, 5, 6, 7, 8])))
@@ -153,6 +157,7 @@ def monitor(case, out):
           "events_while_quiet_pollout_armed": 0, "wbig": 0}
     in_cb = False
     i = 0
+    starts_ok = 0           # successful uv_read_start calls so far: the harness registers callback pair (starts_ok - 1) % 4
     eof_seen = False
     reset_seen = False      # a read error (ECONNRESET, EPIPE, ...) ends the delivery obligation
     while i < len(out):
@@ -193,12 +198,18 @@ def monitor(case, out):
             if pending is not None:
                 raise Bad("alloc-unpaired", f"alloc_cb #{w[2]} while the buffer of alloc_cb #{pending[0]} was never handed to read_cb")
             pending = (w[2], int(w[3]))
+            if w[4] != f"g={(starts_ok - 1) % 4}":
+                raise Bad("stale-callback-invoked", f"alloc_cb of callback pair {w[4]} was invoked, the latest successful uv_read_start "
+                          f"registered pair {(starts_ok - 1) % 4}")
             allocs_in_run += 1
             if allocs_in_run == 32: st["cap32"] += 1
             if allocs_in_run > 32:
                 raise Bad("more-than-32-rounds", "more than 32 alloc/read rounds in one loop iteration")
         elif w[0] == "cb" and w[1] == "read":
             n = int(w[2]); b = w[3][4:]; in_cb = True
+            if w[5] != f"g={(starts_ok - 1) % 4}" and not quiet:
+                raise Bad("stale-callback-invoked", f"read_cb of callback pair {w[5]} was invoked, the latest successful uv_read_start "
+                          f"registered pair {(starts_ok - 1) % 4}")
             if quiet:
                 raise Bad("callback-while-quiet", f"read_cb({n}) although {why} (line {i}: {l})")
             if b == "-":
@@ -254,6 +265,7 @@ def monitor(case, out):
                 if rc == 0:
                     if closing: raise Bad("start-on-closing", "uv_read_start succeeded on a closing handle")
                     quiet = False
+                    starts_ok += 1
             elif w[1] == "close":
                 if rc == 0:
                     closing = True
@@ -288,7 +300,7 @@ def model_input(case, il):
         if c.startswith("open ") or c.startswith("script "):
             mi.append(c)
         elif c.startswith("allocs "):
-            mi.append(" ".join("0" if t == "z" else t for t in c.split()))
+            mi.append(" ".join("0" if t[0] in "zub" else t for t in c.split()))
     cur = None
     for l in il:
         w = l.split()
